@@ -229,11 +229,16 @@ func (f *Field[T]) Select(selector frontend.Variable, a, b *Element[T]) *Element
 	e := f.newInternalElement(make([]frontend.Variable, nbLimbs), overflow)
 	normalize := func(limbs []frontend.Variable) []frontend.Variable {
 		if len(limbs) < nbLimbs {
-			tail := make([]frontend.Variable, nbLimbs-len(limbs))
-			for i := range tail {
-				tail[i] = 0
+			// pad into a new slice. The limbs may be a part of a longer slice
+			// (for example the result of a multiplication is a part of the
+			// hint outputs, followed by the carries), appending to it would
+			// overwrite the values which follow.
+			padded := make([]frontend.Variable, nbLimbs)
+			copy(padded, limbs)
+			for i := len(limbs); i < nbLimbs; i++ {
+				padded[i] = 0
 			}
-			return append(limbs, tail...)
+			return padded
 		}
 		return limbs
 	}
@@ -264,11 +269,16 @@ func (f *Field[T]) Lookup2(b0, b1 frontend.Variable, a, b, c, d *Element[T]) *El
 	e := f.newInternalElement(make([]frontend.Variable, nbLimbs), overflow)
 	normalize := func(limbs []frontend.Variable) []frontend.Variable {
 		if len(limbs) < nbLimbs {
-			tail := make([]frontend.Variable, nbLimbs-len(limbs))
-			for i := range tail {
-				tail[i] = 0
+			// pad into a new slice. The limbs may be a part of a longer slice
+			// (for example the result of a multiplication is a part of the
+			// hint outputs, followed by the carries), appending to it would
+			// overwrite the values which follow.
+			padded := make([]frontend.Variable, nbLimbs)
+			copy(padded, limbs)
+			for i := len(limbs); i < nbLimbs; i++ {
+				padded[i] = 0
 			}
-			return append(limbs, tail...)
+			return padded
 		}
 		return limbs
 	}
@@ -305,11 +315,16 @@ func (f *Field[T]) Mux(sel frontend.Variable, inputs ...*Element[T]) *Element[T]
 	}
 	normalize := func(limbs []frontend.Variable) []frontend.Variable {
 		if len(limbs) < nbLimbs {
-			tail := make([]frontend.Variable, nbLimbs-len(limbs))
-			for i := range tail {
-				tail[i] = 0
+			// pad into a new slice. The limbs may be a part of a longer slice
+			// (for example the result of a multiplication is a part of the
+			// hint outputs, followed by the carries), appending to it would
+			// overwrite the values which follow.
+			padded := make([]frontend.Variable, nbLimbs)
+			copy(padded, limbs)
+			for i := len(limbs); i < nbLimbs; i++ {
+				padded[i] = 0
 			}
-			return append(limbs, tail...)
+			return padded
 		}
 		return limbs
 	}
